@@ -73,3 +73,51 @@
   (concl (forall ((m Int)) (forall ((j Int)) (=> (and (<= 0 j) (<= j m) (< m n)) (>= (select a (+ off m)) (+ (select a (+ off j)) (- m j)))))))
   (pattern (seqmark a off n))
   (trigger seqmark))
+
+(lemma memb_def (axiom)
+  (vars (d (Array Int Int)) (off Int) (n Int) (r Int) (x Int))
+  (hyp true)
+  (concl (= (memb d off n r x) (exists ((k Int)) (and (<= 0 k) (< k n) (= (normax (select d (+ off k)) r) x)))))
+  (pattern (memb d off n r x))
+  (trigger memb))
+
+(lemma nkept_base (axiom)
+  (vars (d (Array Int Int)) (off Int) (n Int) (r Int) (i Int))
+  (hyp (<= i 0))
+  (concl (= (nkept d off n r i) 0))
+  (pattern (nkept d off n r i))
+  (trigger nkept))
+
+(lemma nkept_step (axiom)
+  (vars (d (Array Int Int)) (off Int) (n Int) (r Int) (i Int))
+  (hyp (> i 0))
+  (concl (= (nkept d off n r i) (+ (nkept d off n r (- i 1)) (ite (memb d off n r (- i 1)) 0 1))))
+  (pattern (nkept d off n r i))
+  (trigger nkept))
+
+; 0 <= nkept(i) <= i
+(lemma nkept_bounds
+  (vars (d (Array Int Int)) (off Int) (n Int) (r Int) (i Int))
+  (induct i)
+  (hyp (>= i 0))
+  (concl (and (<= 0 (nkept d off n r i)) (<= (nkept d off n r i) i)))
+  (pattern (nkept d off n r i))
+  (trigger nkept))
+
+; a kept position a below b is counted before b: nkept(a) < nkept(b); and nkept is monotone
+(lemma nkept_strict
+  (vars (d (Array Int Int)) (off Int) (n Int) (r Int) (a Int) (b Int))
+  (induct b)
+  (hyp (and (<= 0 a) (< a b)))
+  (concl (and (<= (nkept d off n r a) (nkept d off n r b)) (=> (not (memb d off n r a)) (< (nkept d off n r a) (nkept d off n r b)))))
+  (pattern (nkept d off n r a) (nkept d off n r b))
+  (trigger nkept))
+
+; nkept only depends on which positions are axes
+(lemma nkept_cong
+  (vars (d (Array Int Int)) (off Int) (n Int) (r Int) (e (Array Int Int)) (offe Int) (m Int) (s Int) (i Int))
+  (induct i)
+  (hyp (forall ((x Int)) (=> (and (<= 0 x) (< x i)) (= (memb d off n r x) (memb e offe m s x)))))
+  (concl (= (nkept d off n r i) (nkept e offe m s i)))
+  (pattern (nkept d off n r i) (nkept e offe m s i))
+  (trigger nkept))
